@@ -137,3 +137,38 @@ BENIGN += [
     dict(id="c14-lru-cache-on-pure-map-re", props=["C14", "C16", "C11"], file=S + "function_extensions/_pattern.py",
          old="def map_re(pattern: str) -> str:", new="import functools\n\n\n@functools.lru_cache(maxsize=64)\ndef map_re(pattern: str) -> str:"),
 ]
+
+SELF = S + "selectors.py"
+BENIGN += [
+    # a value precomputed in the constructor and used at resolution time
+    dict(id="c07-index-sign-precomputed-in-init", props=["C01", "C07", "C08", "C13", "C14", "C16"], edits=[
+        dict(file=SELF, old='    __slots__ = ("index", "_as_key")', new='    __slots__ = ("index", "_as_key", "_negative")'),
+        dict(file=SELF, old="        self._as_key = str(self.index)\n", new="        self._as_key = str(self.index)\n        self._negative = index < 0\n"),
+        dict(file=SELF, old="        if self.index < 0 and len(obj) >= abs(self.index):", new="        if self._negative and len(obj) >= abs(self.index):")]),
+]
+
+_WS_OLD = "        if self.accept_match(RE_WHITESPACE):\n            self.ignore()\n            return True\n        return False"
+_WS_LOOP = "        query = self.query\n        pos = self.pos\n        end = len(query)\n        while pos < end and query[pos] {PRED}:\n            pos += 1\n        if pos != self.pos:\n            self.pos = pos\n            self.ignore()\n            return True\n        return False"
+BENIGN += [
+    # blank space skipped by a character loop over exactly the RFC's four characters
+    dict(id="c04-blank-scan-loop-same-class", props=["C03", "C04", "C13", "C19", "C20"], file=S + "lex.py",
+         old=_WS_OLD, new=_WS_LOOP.replace("{PRED}", "in ' \\t\\n\\r'")),
+    dict(id="c04-whitespace-constant-renamed", props=["C03", "C04"], edits=[
+        dict(file=S + "lex.py", old="RE_WHITESPACE = ", new="RE_WS = "),
+        dict(file=S + "lex.py", old="self.accept_match(RE_WHITESPACE)", new="self.accept_match(RE_WS)"),
+        dict(file=S + "lex.py", old="l.accept_match(RE_WHITESPACE)", new="l.accept_match(RE_WS)")]),
+]
+
+_API_OLD = "compile = DEFAULT_ENV.compile  # noqa: A001\nfinditer = DEFAULT_ENV.finditer\nfind = DEFAULT_ENV.find\nfind_one = DEFAULT_ENV.find_one\n"
+BENIGN += [
+    # module-level entry points as plain delegating functions
+    dict(id="c15-module-api-as-delegating-functions", props=["C15", "C14", "C13"], file=S + "__init__.py", old=_API_OLD,
+         new="def compile(query):  # noqa: A001\n    return DEFAULT_ENV.compile(query)\n\n\ndef finditer(query, value):\n    return DEFAULT_ENV.finditer(query, value)\n\n\ndef find(query, value):\n    return DEFAULT_ENV.find(query, value)\n\n\ndef find_one(query, value):\n    return DEFAULT_ENV.compile(query).find_one(value)\n"),
+]
+
+_SER_OLD = "import json\n\n\ndef canonical_string(value: str) -> str:\n    \"\"\"Return _value_ as a canonically formatted string literal.\"\"\"\n    single_quoted = (\n        json.dumps(value, ensure_ascii=False)[1:-1]\n        .replace('\\\\\"', '\"')\n        .replace(\"'\", \"\\\\'\")\n    )\n    return f\"'{single_quoted}'\"\n"
+_SER_TABLE = "_ESCAPES = {codepoint: f\"\\\\u{codepoint:04x}\" for codepoint in range({N})}\n_ESCAPES.update({0x08: \"\\\\b\", 0x09: \"\\\\t\", 0x0A: \"\\\\n\", 0x0C: \"\\\\f\", 0x0D: \"\\\\r\", 0x27: \"\\\\'\", 0x5C: \"\\\\\\\\\"})\n\n\ndef canonical_string(value: str) -> str:\n    \"\"\"Return _value_ as a canonically formatted string literal.\"\"\"\n    return f\"'{value.translate(_ESCAPES)}'\"\n"
+BENIGN += [
+    # the normalized-path writer as a translation table covering all 32 C0 controls, quote and backslash
+    dict(id="c08-writer-as-translate-table", props=["C08", "C12", "C13", "C14"], file=S + "serialize.py", old=_SER_OLD, new=_SER_TABLE.replace("{N}", "0x20")),
+]
